@@ -121,6 +121,10 @@ class Ctx:
                 continue
             if callable(v) and not hasattr(v, '__dict__'):
                 continue
+            if type(v).__name__ == 'Generator':
+                if not (v.bit_generator.state == old[k].bit_generator.state):
+                    return {'status': 'violated', 'clause': 'frame:%s' % k, 'observed': 'generator argument %s was advanced' % k}
+                continue
             if not _same(v, old[k]):
                 return {'status': 'violated', 'clause': 'frame:%s' % k, 'observed': 'argument %s was modified' % k}
         env_post = dict(old)
@@ -311,6 +315,16 @@ def gen_values(sort_src, rng, p_hint, budget):
                         var = var * 1e-10
                     out.append(LGANM(W, mu, var))
             return out
+        if cls.endswith('BayesianNetwork'):
+            import sempler.semi as semi
+            if 'e=' not in s:
+                return [object.__new__(semi.BayesianNetwork)]
+            out = []
+            for e in (1, 2, 3):
+                o = object.__new__(semi.BayesianNetwork)
+                o.e = e
+                out.append(o)
+            return out
         if cls.endswith('NormalDistribution'):
             from sempler.normal_distribution import NormalDistribution
             if 'mean=' not in s:
@@ -362,7 +376,8 @@ def search(ctx, q, seed=0, budget=300, max_calls=20000, stop_on_first=True):
         for cn in cnames:
             vals = []
             for cv in cases[cn]:
-                vals += {'int': [0, 1, 2, 3, 42], 'none': [None], 'empty_dict': [{}], 'dict': _iv_dicts(), 'rpair': [(0, 1), (0.5, 0.5), (-2.0, -1.0)], 'arr1': [np.array(v, dtype=float) for k in (1, 2, 3) for v in itertools.product((1, 2.5), repeat=k)] + [np.array([1, 2])], 'pair': [(a, b) for a in range(0, 4) for b in range(a, 5)], 'triple': [(1, 2, 3), (0, 0, 0)]}.get(cv, [cv]) if isinstance(cv, str) else [cv]
+                vals += {'int': [0, 1, 2, 3, 42], 'none': [None], 'empty_dict': [{}], 'dict': _iv_dicts(), 'gen': [np.random.default_rng(5)], 'arrlist': [[np.zeros((3, 2)), np.ones((1, 2))], [np.zeros((2, 3))], [], [np.zeros((2, 2)), np.zeros((2, 3))]], 'real': [2.5, -1.0], 'intlist': [[2, 3], [1], [2, 3, 4], [0, 1], [], [5, -1]], 'notarray': ['x', 5, (1, 2)],
+                         'arr2': [np.array([[0, 1.0], [0, 0]]), np.array([[0, 1.0, 1], [0, 0, -1], [0, 0, 0]]), np.array([[0, 1.0], [1, 0]]), np.array([[0, 1.0, 0], [0, 0, 0]])], 'rpair': [(0, 1), (0.5, 0.5), (-2.0, -1.0)], 'arr1': [np.array(v, dtype=float) for k in (1, 2, 3) for v in itertools.product((1, 2.5), repeat=k)] + [np.array([1, 2])], 'pair': [(a, b) for a in range(0, 4) for b in range(a, 5)], 'triple': [(1, 2, 3), (0, 0, 0)]}.get(cv, [cv]) if isinstance(cv, str) else [cv]
             doms.append(vals)
         doms += [gen_values(ast.unparse(a), rng, None, budget) for _, a in gnames]
     except KeyError as e:
@@ -415,6 +430,8 @@ def _jsonable(v):
         return {'dict': [[_jsonable(k), _jsonable(x)] for k, x in v.items()]}
     if isinstance(v, list):
         return [_jsonable(x) for x in v]
+    if type(v).__name__ == 'Generator':
+        return {'generator': 'numpy.random.default_rng(5)'}
     if hasattr(v, '__dict__') and type(v).__module__.startswith('sempler'):
         return {'obj': type(v).__module__ + '.' + type(v).__name__, 'attrs': {k: _jsonable(x) for k, x in vars(v).items()}}
     return v
@@ -430,6 +447,8 @@ def _unjson(v):
             return tuple(_unjson(x) for x in v['tuple'])
         if 'dict' in v:
             return {(_hashable(_unjson(k))): _unjson(x) for k, x in v['dict']}
+        if 'generator' in v:
+            return np.random.default_rng(5)
         if 'obj' in v:
             mod, cls = v['obj'].rsplit('.', 1)
             o = object.__new__(getattr(importlib.import_module(mod), cls))
